@@ -27,7 +27,7 @@ pub fn to_v1(bytes: &[u8]) -> Vec<u8> {
 }
 
 pub fn run(ctx: &Ctx) -> i32 {
-    let sizes = Sizes { random: (3000, 30_000), deep: (0, 0), level0_only: true, max_levels: 0, budget: 40_000 };
+    let sizes = Sizes { random: (3000, 120_000), deep: (0, 0), level0_only: true, max_levels: 0, budget: 40_000 };
     let per_file = ctx.tier.pick(20, 120);
     for_each_file(ctx, &sizes, |b, rng| {
         let v1 = to_v1(&b.bytes);
